@@ -32,6 +32,7 @@ class Reader:
         self.stuck_w = None      # stream size when the pending drop episode started
         self.last_poll_w = None
         self.polls_in_episode = 0
+        self.tainted = False
 
 
 class RingModel:
@@ -45,6 +46,10 @@ class RingModel:
         self.readers = {}
         self.varying = False
         self.frag = False
+        # ring layout as reported by the driver: sorted, non-overlapping [start, end, block id]
+        self.live_starts = []
+        self.live = []           # parallel to live_starts: (end, block id)
+        self.dead = set()        # blocks of which at least one byte has been overwritten
 
     # ---- writer ------------------------------------------------------------
     def commit(self, bid, length, offset_used, via_set2_gap=False):
@@ -57,6 +62,43 @@ class RingModel:
         self.cum.append(self.total)
         self.total += length
         self.maxblock = max(self.maxblock, length)
+
+    def note_region_written(self, a, b, data_start, bid):
+        """the writer touched ring bytes [a, b); [data_start, b) now holds block `bid`
+        (bid 0 / data_start == b: nothing committed).  Every older block that lost a byte is dead."""
+        import bisect
+        i = bisect.bisect_right(self.live_starts, a) - 1
+        if i < 0 or self.live[i][0] <= a:
+            i += 1
+        j = i
+        while j < len(self.live_starts) and self.live_starts[j] < b:
+            self.dead.add(self.live[j][1])
+            j += 1
+        del self.live_starts[i:j]
+        del self.live[i:j]
+        if bid and data_start < b:
+            self.live_starts.insert(i, data_start)
+            self.live.insert(i, (b, bid))
+
+    def overwritten_in(self, runs, pos):
+        """do the regions handed out show that a block-table entry outlived its bytes?  Junk or
+        bytes of a (partly) overwritten block, or a region that starts in the middle of a block
+        although the reader does not stand there."""
+        for n, (bid, off, ln, cok) in enumerate(runs):
+            if bid == 0 or bid in self.dead:
+                return True
+            if bid < len(self.blen) and off + ln != self.blen[bid] and n != len(runs) - 1:
+                return True          # blocks are handed out whole: a region that stops inside a block
+            if off != 0 and bid < len(self.blen):
+                a = self.cum[bid] + off
+                if n == 0:
+                    if pos is None or pos != a:
+                        return True
+                else:
+                    pb, po, pl, _ = runs[n - 1]
+                    if not (pb == bid and po + pl == off):
+                        return True
+        return False
 
     def reader(self, r):
         if r not in self.readers:
@@ -87,53 +129,72 @@ class RingModel:
         start_abs = None
         cur = None
         bad = False
+        pos_before = rd.pos
+        # a) every run must be committed stream bytes, identical to what was written
         for (bid, off, ln, cok) in runs:
             if bid == 0 or bid >= len(self.blen):
                 v.append(("not-stream-bytes", "committed stream bytes", {"run": [bid, off, ln]}))
                 bad = True
-                break
-            if off + ln > self.blen[bid]:
+            elif off + ln > self.blen[bid]:
                 v.append(("run-exceeds-block", self.blen[bid], {"run": [bid, off, ln]}))
                 bad = True
-                break
-            if not cok:
+            elif not cok:
                 v.append(("bytes-differ", "bytes as written", {"run": [bid, off, ln]}))
                 bad = True
+            if bad:
                 break
-            a = self.cum[bid] + off
-            if cur is None:
-                start_abs = a
-            elif a > cur:
-                v.append(("gap-inside-call", "contiguous continuation at stream offset %d" % cur,
-                          {"next_run_at": a, "skipped": a - cur, "run": [bid, off, ln]}))
-                bad = True
-                break
-            elif a < cur:
-                v.append(("repetition-inside-call", "contiguous continuation at stream offset %d" % cur,
-                          {"next_run_at": a, "run": [bid, off, ln]}))
-                bad = True
-                break
-            cur = a + ln
             delivered += ln
-        if not bad and start_abs is not None and rd.pos is not None:
-            if start_abs < rd.pos:
-                v.append(("repetition", "continuation at stream offset %d" % rd.pos,
-                          {"got_offset": start_abs, "behind_by": rd.pos - start_abs}))
-                bad = True
-            elif start_abs > rd.pos:
-                skipped = start_abs - rd.pos
-                first = runs[0]
-                if rd.drop_calls == 0:
-                    v.append(("silent-gap", "continuation at stream offset %d or a drop report" % rd.pos,
-                              {"got_offset": start_abs, "skipped": skipped, "drops_reported": 0}))
+        # b) where the first byte stands relative to the reader's position
+        if not bad and runs:
+            start_abs = self.cum[runs[0][0]] + runs[0][1]
+            if rd.pos is not None:
+                if start_abs < rd.pos:
+                    v.append(("repetition", "continuation at stream offset %d" % rd.pos,
+                              {"got_offset": start_abs, "behind_by": rd.pos - start_abs}))
                     bad = True
-                elif first[1] != 0:
-                    v.append(("resync-mid-block", "resume at a block boundary", {"run": list(first[:3])}))
+                elif start_abs > rd.pos:
+                    skipped = start_abs - rd.pos
+                    first = runs[0]
+                    if rd.drop_calls == 0:
+                        v.append(("silent-gap", "continuation at stream offset %d or a drop report" % rd.pos,
+                                  {"got_offset": start_abs, "skipped": skipped, "drops_reported": 0}))
+                        bad = True
+                    elif first[1] != 0:
+                        v.append(("resync-mid-block", "resume at a block boundary", {"run": list(first[:3])}))
+                        bad = True
+                    elif rd.drop_sum < skipped:
+                        # accounting only: the stream position is not lost
+                        v.append(("drop-under-report", "reported drops >= %d skipped bytes" % skipped,
+                                  {"reported_sum": rd.drop_sum, "skipped": skipped}))
+        # c) the runs of one call are contiguous
+        if not bad and runs:
+            cur = None
+            for (bid, off, ln, cok) in runs:
+                a = self.cum[bid] + off
+                if cur is not None and a > cur:
+                    v.append(("gap-inside-call", "contiguous continuation at stream offset %d" % cur,
+                              {"next_run_at": a, "skipped": a - cur, "run": [bid, off, ln]}))
                     bad = True
-                elif rd.drop_sum < skipped:
-                    v.append(("drop-under-report", "reported drops >= %d skipped bytes" % skipped,
-                              {"reported_sum": rd.drop_sum, "skipped": skipped}))
+                    break
+                if cur is not None and a < cur:
+                    v.append(("repetition-inside-call", "contiguous continuation at stream offset %d" % cur,
+                              {"next_run_at": a, "run": [bid, off, ln]}))
                     bad = True
+                    break
+                cur = a + ln
+        WRONG = ("not-stream-bytes", "run-exceeds-block", "silent-gap", "resync-mid-block", "gap-inside-call",
+                 "repetition-inside-call", "repetition")
+        if v and v[-1][0] in WRONG:
+            if self.overwritten_in(runs, pos_before):
+                c, e, ob = v[-1]
+                ob = dict(ob)
+                ob["first_failing_clause"] = c
+                v[-1] = ("overwritten-handed-out", "only bytes of intact blocks, in sequence (or a drop report)", ob)
+            if getattr(rd, "tainted", False) and rd.pos is None:
+                v.pop()              # follow-up of a violation already reported for this reader
+            rd.tainted = True
+        elif not bad and delivered > 0:
+            rd.tainted = False
         # 5: reported size
         sr = 0 if size_ret == SENTINEL else size_ret
         if not bad and sr != total_in_iovs:
@@ -217,6 +278,16 @@ def selftest():
     v, d = m.judge_read(5, [(1, 0, 10, 1)], 0, 10, 10, 0, True, avail=50, avail_drop=0)
     if [x[0] for x in v] != ["avail-differs-from-full-read"]:
         fails.append("avail: %r" % (v,))
+    m3 = RingModel(40, 10)
+    m3.commit(1, 10, 0); m3.note_region_written(0, 10, 0, 1)
+    m3.commit(2, 10, 0); m3.note_region_written(10, 20, 10, 2)
+    m3.commit(3, 15, 5); m3.note_region_written(0, 20, 5, 3)
+    if m3.dead != {1, 2} or m3.live_starts != [5] or m3.live != [(20, 3)]:
+        fails.append("live map: %r %r %r" % (m3.dead, m3.live_starts, m3.live))
+    m3.reinit(0, 0)
+    v, d = m3.judge_read(0, [(0, 0, 5, 1), (3, 0, 5, 1)], 0, 10, 10, 10, True)
+    if [x[0] for x in v] != ["overwritten-handed-out"]:
+        fails.append("overwritten: %r" % (v,))
     # bounded progress
     m2 = RingModel(100, 10)
     m2.commit(1, 10, 0)
